@@ -59,7 +59,7 @@ func (eng) Rule(mode string) string {
 		"loop: real processEvents + sendOperatorEvent + operator cluster, scripted ticker and source reads, key-event batch 1-3, operator batch 2-6 without time-out flush, 1-3 recording operators, ticks interleaved with reads of increasing timestamps; watermark values taken when the batch is delivered. " +
 		"run: real SourceRunner (Start/HandleDeploy/HandleAssignSplits) reading a scripted source to its end through a slow scripted KeyEventBatch, 1-4 recording operators. " +
 		"reg: real TimerRegistry on a real DKV (memory fs), 0-4 configured runners, random interleavings of AdvanceWatermark (known / unknown senders, regressing, nil, pre-epoch, zero-time watermarks) and SetTimer. " +
-		"op: real Operator with a scripted recording handler, batch size 1-3, keyed events carrying timers and watermark messages from several senders. " +
+		"op: real Operator with a scripted recording handler, batch size 1-3, keyed events carrying timers, watermark messages from several senders and SourceComplete of some runners (one always stays active) after which the others go on reporting. " +
 		"Non-trivial: the history contains at least two watermark observations and (reg/op) at least two distinct senders or a fired timer; distinct by hash of the case."
 }
 
@@ -91,7 +91,7 @@ type evJ struct {
 }
 
 type opJ struct {
-	K      string `json:"k"` // adv cur | pk pw pb | radv rset | ev wm
+	K      string `json:"k"` // adv cur | pk pw pb | rd tk | rb | radv rset | ev wm sc
 	Ts     *tsJ   `json:"ts,omitempty"`
 	Evs    []evJ  `json:"evs,omitempty"`
 	S      int    `json:"s,omitempty"`
@@ -341,7 +341,28 @@ func genOp(r *hx.Rand, i int) *hx.Case {
 	m := r.Range(1, 3)
 	id := 0
 	var ops []json.RawMessage
+	active := map[int]bool{}
+	for _, x := range ids {
+		active[x] = true
+	}
 	for k := 0; k < n; k++ {
+		// a runner finishes (SourceComplete) while at least one other configured runner stays active - otherwise
+		// the operator stops itself; the others go on reporting
+		if len(active) >= 2 && r.Chance(1, 7) {
+			var act []int
+			for x := range active {
+				act = append(act, x)
+			}
+			sort.Ints(act)
+			sdone := hx.Pick(r, act)
+			delete(active, sdone)
+			if r.Chance(1, 2) { // often with a final watermark below the others just before
+				t := tsJ{S: base + int64(r.Intn(3)), N: 999999999}
+				ops = append(ops, hx.Op(opJ{K: "wm", S: sdone, Ts: &t}))
+			}
+			ops = append(ops, hx.Op(opJ{K: "sc", S: sdone}))
+			continue
+		}
 		if r.Chance(1, 2) {
 			id++
 			nt := r.Intn(4)
@@ -1207,6 +1228,11 @@ func execOp(c *hx.Case, ops []opJ) (*hx.Result, error) {
 	var obs []any
 	nwm, ncalls := 0, 0
 	senders := map[int]bool{}
+	completed := map[int]bool{}
+	latest := map[int]time.Time{}
+	for _, i := range ids {
+		latest[i] = time.Unix(0, 0)
+	}
 	for _, o := range ops {
 		var ev *workerpb.Event
 		switch o.K {
@@ -1231,6 +1257,39 @@ func execOp(c *hx.Case, ops []opJ) (*hx.Result, error) {
 			tsTags(*o.Ts, tags)
 			ev = &workerpb.Event{Event: &workerpb.Event_Watermark{Watermark: &workerpb.Watermark{Timestamp: o.Ts.pb()}}}
 			terms = append(terms, fmt.Sprintf("OWm %s %s", hx.CoqN(uint64(o.S)), o.Ts.coq()))
+			latest[o.S] = o.Ts.pb().AsTime()
+			if len(completed) > 0 && !completed[o.S] {
+				// does a finished runner alone hold the minimum now?
+				minDone, minLive := time.Time{}, time.Time{}
+				haveDone, haveLive := false, false
+				for sid, t := range latest {
+					if completed[sid] {
+						if !haveDone || t.Before(minDone) {
+							minDone, haveDone = t, true
+						}
+					} else if !haveLive || t.Before(minLive) {
+						minLive, haveLive = t, true
+					}
+				}
+				if haveDone && haveLive && minDone.Before(minLive) {
+					tags["finished_runner_holds_min"] = true
+				}
+			}
+		case "sc":
+			// only legal while another configured runner stays active (the operator stops itself otherwise)
+			stillActive := 0
+			for _, i := range ids {
+				if i != o.S && !completed[i] {
+					stillActive++
+				}
+			}
+			if stillActive == 0 {
+				return nil, fmt.Errorf("case would complete the last active runner")
+			}
+			completed[o.S] = true
+			tags["source_complete"] = true
+			ev = &workerpb.Event{Event: &workerpb.Event_SourceComplete{SourceComplete: &workerpb.SourceCompleteEvent{}}}
+			terms = append(terms, fmt.Sprintf("OComplete %s", hx.CoqN(uint64(o.S))))
 		default:
 			return nil, fmt.Errorf("bad op %q for kind op", o.K)
 		}
